@@ -31,7 +31,7 @@ class Coll(Term):
 
 class Event:
     __slots__ = ("kind", "op", "target", "opts", "line", "file", "failed",
-                 "guards", "depth", "via", "args", "text", "in_comp", "env", "ncond")
+                 "guards", "depth", "via", "args", "text", "in_comp", "env", "ncond", "whole")
 
     def __init__(self, kind, op=None, target=None, opts=None, line=0, file="",
                  guards=(), depth=0, via=(), args=(), text="", in_comp=False):
@@ -50,6 +50,7 @@ class Event:
         self.in_comp = in_comp
         self.env = None
         self.ncond = 0
+        self.whole = False
 
     def copy(self):
         e = Event(self.kind, self.op, self.target, self.opts, self.line,
@@ -58,6 +59,7 @@ class Event:
         e.failed = self.failed
         e.env = self.env
         e.ncond = self.ncond
+        e.whole = self.whole
         return e
 
     def key(self):
@@ -126,6 +128,7 @@ class Ctx:
         self.unfolding: List[Tuple[str, str]] = []  # (class qualname, op)
         self.inlined = 0
         self.no_inline: set = set()
+        self.whole = 0  # >0 while inside an iteration that visits every element
         self.steps = 0
         self.max_steps = 400000
         self.attr_kind_cache: Dict[Tuple[str, str], str] = {}
@@ -207,6 +210,7 @@ class Frame:
                   file=self.module.relpath, in_comp=bool(self.in_comp), **kw)
         e.env = dict(p.env)
         e.ncond = len(p.conds)
+        e.whole = self.ctx.whole > 0
         p.events.append(e)
         return e
 
@@ -415,6 +419,9 @@ class Frame:
                 return None
             if isinstance(t, Const):
                 return False if all(isinstance(n, ClassInfo) for n in names) else None
+            if isinstance(t, Sym) and t.head in ("list", "call:list", "list[]"):
+                if "list" in [n for n in names if isinstance(n, str)]:
+                    return True
             return None
         if isinstance(test, ast.Compare) and len(test.ops) == 1 and isinstance(test.ops[0], (ast.Is, ast.IsNot)):
             a = self.peek(test.left, p)
@@ -512,40 +519,51 @@ class Frame:
                 p.env[test.left.id] = rhs
 
     def do_for(self, st, p: Path) -> List[Path]:
-        out = []
+        out: List[Path] = []
+        early = any(isinstance(x, (ast.Return, ast.Break)) for b_ in st.body for x in ast.walk(b_))
         for q, it in self.expr(st.iter, p):
             if q.status != "live":
                 out.append(q)
                 continue
             elems = iter_elems(it)
-            pending = [q]
-            n_iter = self.ctx.unroll if len(elems) == 1 else len(elems)
-            for i in range(n_iter):
-                el = elems[0] if len(elems) == 1 else elems[i]
-                nxt = []
-                for r in pending:
-                    if len(elems) == 1:
-                        out.append(r.fork())  # loop exits before this iteration
-                    body_in = r.fork()
-                    self.assign(st.target, el, body_in, st)
-                    for b in self.block(st.body, [body_in]):
-                        if b.status == "break":
-                            b.status = "live"
-                            out.append(b)
-                        elif b.status == "continue":
-                            b.status = "live"
-                            nxt.append(b)
-                        elif b.status == "live":
-                            nxt.append(b)
-                        else:
-                            out.append(b)
-                pending = nxt
-            for r in pending:
-                if st.orelse:
-                    out.extend(self.block(st.orelse, [r]))
-                else:
-                    out.append(r)
+            is_whole = len(elems) == 1 and not early and not isinstance(it, Seq)
+            if is_whole:
+                self.ctx.whole += 1
+            try:
+                self._for_body(st, q, elems, out)
+            finally:
+                if is_whole:
+                    self.ctx.whole -= 1
         return dedupe(out)
+
+    def _for_body(self, st, q: Path, elems: List[Term], out: List[Path]) -> None:
+        pending = [q]
+        n_iter = self.ctx.unroll if len(elems) == 1 else len(elems)
+        for i in range(n_iter):
+            el = elems[0] if len(elems) == 1 else elems[i]
+            nxt = []
+            for r in pending:
+                if len(elems) == 1:
+                    out.append(r.fork())  # loop exits before this iteration
+                body_in = r.fork()
+                self.assign(st.target, el, body_in, st)
+                for b in self.block(st.body, [body_in]):
+                    if b.status == "break":
+                        b.status = "live"
+                        out.append(b)
+                    elif b.status == "continue":
+                        b.status = "live"
+                        nxt.append(b)
+                    elif b.status == "live":
+                        nxt.append(b)
+                    else:
+                        out.append(b)
+            pending = nxt
+        for r in pending:
+            if st.orelse:
+                out.extend(self.block(st.orelse, [r]))
+            else:
+                out.append(r)
 
     def do_try(self, st: ast.Try, p: Path) -> List[Path]:
         htypes = []
@@ -591,6 +609,10 @@ class Frame:
                 if pref in seen_prefix:
                     continue
                 seen_prefix.add(pref)
+                if e.kind == "call" and e.text.endswith("get_dotted_key") and len(e.args) >= 2:
+                    probe = f"dotted_key_exists({e.args[0].key()},{e.args[1].key()})"
+                    if any(probe in c[2] and (c[1] != c[2].startswith("unop:Not(")) for c in b.conds):
+                        continue  # presence was established on this path
                 for hi, h in enumerate(st.handlers):
                     if not self.event_may_raise_into(e, h):
                         continue
@@ -938,7 +960,7 @@ class Frame:
         if len(e.generators) == 1 and not e.generators[0].ifs and len(elts) == 1:
             g = e.generators[0]
             it = self.peek(g.iter, p)
-            if isinstance(it, Seq) and len(iter_elems(it)) > 1 and not any(isinstance(x, Sym) and x.head == "star" for x in it.items):
+            if isinstance(it, Seq) and not any(isinstance(x, Sym) and x.head == "star" for x in it.items):
                 saved = dict(p.env)
                 cur = [(p, [])]
                 for item in it.items:
@@ -984,6 +1006,16 @@ class Frame:
                         out_.append((q2, acc))
                         continue
                     cur = [(q2, acc)]
+                    comp_whole = not isinstance(it, Seq)
+                    if comp_whole:
+                        self.ctx.whole += 1
+                    try:
+                        cur = self._gen_elems(e, g, idx, it, cur, gen)
+                    finally:
+                        if comp_whole:
+                            self.ctx.whole -= 1
+                    out_.extend(cur)
+                    continue
                     for el in iter_elems(it):
                         nxt = []
                         for q3, a3 in cur:
@@ -1028,6 +1060,22 @@ class Frame:
             return out
         finally:
             self.in_comp -= 1
+
+    def _gen_elems(self, e, g, idx, it, cur, gen):
+        for el in iter_elems(it):
+            nxt = []
+            for q3, a3 in cur:
+                if q3.status != "live":
+                    nxt.append((q3, a3))
+                    continue
+                self.assign(g.target, el, q3, e)
+                conds = [q3]
+                for c in g.ifs:
+                    conds = [r for q4 in conds for r, _ in self.expr(c, q4)]
+                for q4 in conds:
+                    nxt.extend(gen(idx + 1, q4, a3))
+            cur = nxt
+        return cur
 
     def e_ListComp(self, e, p):
         return self._comp(e, [e.elt], p, "list")
